@@ -155,6 +155,13 @@ func (g *GBitcoindEstimator) estimateFee(targetBlocks uint32) (btcutil.Amount, e
 	// witnessScaleFactor.
 	satPerKw := satPerKB / witnessScaleFactor
 
+	// A fee rate of zero means that the node has no estimate (not enough
+	// data). This is not a fee rate to raise to the floor: the caller falls
+	// back to the configured rate.
+	if satPerKw == 0 {
+		return 0, nil
+	}
+
 	// Finally compare the fee to our minimum floor
 	minRelayFee := g.feeFloorSatPerKw
 	if g.minFeeManager != nil {
